@@ -24,6 +24,7 @@ package main
 import (
 	"bufio"
 	"bytes"
+	"context"
 	"encoding/json"
 	"errors"
 	"fmt"
@@ -495,6 +496,9 @@ type isoCfg struct {
 	N       int    `json:"n"`
 	Seed    uint64 `json:"seed"`
 	Server  bool   `json:"server"` // through a real httptest.Server instead of direct ServeHTTP
+	// every request context descends from one application context that already carries a logger
+	// (http.Server.BaseContext, or r.WithContext(appCtx) in front of the chain)
+	SharedCtx bool `json:"shared_ctx,omitempty"`
 }
 
 func safeWord(r *Rng, n int) string {
@@ -638,9 +642,21 @@ func isoBatch(c *Ctx, cfg isoCfg) {
 		}
 		return rq
 	}
+	// the application context: carries the application's own logger (a child of base), shared by all requests
+	appSink := &lineSink{}
+	appLogger := zerolog.New(appSink).With().Str("app", "ctx").Logger()
+	appCtx := appLogger.WithContext(context.Background())
+	if cfg.SharedCtx && !cfg.Server {
+		inner := h
+		h = http.HandlerFunc(func(w http.ResponseWriter, rq *http.Request) { inner.ServeHTTP(w, rq.WithContext(appCtx)) })
+	}
 	var done sync.WaitGroup
 	if cfg.Server {
-		srv := httptest.NewServer(h)
+		srv := httptest.NewUnstartedServer(h)
+		if cfg.SharedCtx {
+			srv.Config.BaseContext = func(net.Listener) context.Context { return appCtx }
+		}
+		srv.Start()
 		for i := range vals {
 			done.Add(1)
 			go func(v *reqVals) {
@@ -674,6 +690,12 @@ func isoBatch(c *Ctx, cfg isoCfg) {
 	lines := append([]string{}, sink.lines...)
 	sink.lines = nil
 	sink.mu.Unlock()
+	// the logger in the application context is still the application's
+	zerolog.Ctx(appCtx).Log().Msg("")
+	if len(appSink.lines) != 1 || appSink.lines[0] != "{\"app\":\"ctx\"}\n" {
+		c.Violate(Violation{Key: "shared-context-logger-changed", Monitor: "base-unchanged", Desc: "the logger carried by the application context (parent of every request context) emits something else after the requests ran",
+			Case: map[string]interface{}{"kind": "iso", "config": cfg}, Observed: appSink.lines, Expected: []string{"{\"app\":\"ctx\"}\n"}})
+	}
 	// base logger afterwards
 	base.Log().Msg("")
 	after := sink.lines[len(sink.lines)-1]
@@ -851,6 +873,7 @@ func seededRng(seed uint64) *Rng {
 func genIso(r *Rng, server bool) isoCfg {
 	cfg := isoCfg{Base: []string{"nil", "spare", "spare", "long"}[r.Intn(4)], Barrier: !r.Chance(15), Seed: r.Next() % 65536, Server: server}
 	cfg.N = []int{1, 2, 2, 3, 4, 8, 16, 32}[r.Intn(8)]
+	cfg.SharedCtx = r.Chance(35)
 	n := r.Intn(9)
 	for j := 0; j < n; j++ {
 		hi := r.Intn(len(fieldHandlers))
